@@ -95,3 +95,27 @@ package trie2
 //@   ensures value_only_at_full_depth: result1 == nil && result0 != felt.Zero ==> keyBits.len == 0
 //@   ensures recomputed_never_cached: calls_CachedHash == old(calls_CachedHash)
 //@   ensures every_node_rehashed: result1 == nil && result0 != felt.Zero ==> calls_RecomputedHash > old(calls_RecomputedHash)
+
+// ---- deleting a key removes the leaf's own entry from the node database (C03, C01) ------------------
+// delete(n, prefix, key): prefix is the path of node n, key what is left of the key below it. Every
+// node that disappears is reported to the tracer under ITS OWN path; Commit turns the reports into
+// database deletions. A value node is reached with the whole key consumed: its path is prefix
+// (defect F20: it was reported under the empty remaining key - the root's path - so a cleared leaf
+// under a binary node stayed on disk and head reads, which fetch leaves directly, kept returning it).
+//@ func (*nodeTracer).onDelete
+//@   trusted
+//@   logged as traceDelete
+//@ func (*Trie).resolveNode
+//@   trusted
+//@ extern func github.com/NethermindEth/juno/core/trie2/trienode.(*EdgeNode).CommonPath
+//@ extern func github.com/NethermindEth/juno/core/trie2/trienode.(*BinaryNode).Copy
+//@   ensures result != nil && fresh(result)
+//@ extern func github.com/NethermindEth/juno/core/trie2/trienode.NewNodeFlag
+//@ func (*Trie).delete
+//@   props C03 C01
+//@   arith int
+//@   nosafe
+//@   requires t != nil
+//@   modifies *
+//@   assigns calls_traceDelete, arg_traceDelete_key
+//@   callsite onDelete@*: a_value_node_under_its_own_path: istype(n, *trienode.ValueNode) ==> $1 == prefix
